@@ -1,6 +1,7 @@
 package main
 
 import (
+	"strings"
 	"encoding/json"
 	"fmt"
 
@@ -355,6 +356,31 @@ func runC16(c *ctx) {
 			}
 		}
 	}
+	// variable-free lists whose encoding is far longer than any single item can be: no variables, so they encode (the
+	// 16,777,215 limit binds each length field, not the bytes of a list's children together)
+	{
+		big := ast.NewASCIINode(strings.Repeat("x", 4000000))
+		flat := ast.NewListNode(big, big, big, big, big)
+		nested := ast.NewListNode(ast.NewListNode(big, big), ast.NewUintNode(1, 7), ast.NewListNode(big, big), ast.NewListNode(big, big, ast.NewListNode(big)))
+		for name, l := range map[string]ast.ItemNode{"flat": flat, "nested": nested} {
+			wantLen := map[string]int{"flat": 2 + 5*4000004, "nested": 2 + (2 + 2*4000004) + 3 + (2 + 2*4000004) + (2 + 2*4000004 + 2 + 4000004)}[name]
+			var b []byte
+			var vars []string
+			o := real.Try(func() { vars = l.Variables(); b = l.ToBytes() })
+			c.NoteBulk(1, 1)
+			c.Class("list-longer-than-any-item")
+			if o.Panicked || len(vars) != 0 || len(b) != wantLen {
+				c.Violation("C16/encodable-iff-no-variables/list-longer-than-any-item", fmt.Sprintf("%s list of 4,000,000-character items: Variables()=%q, ToBytes() has %d bytes, want %d (%s)", name, vars, len(b), wantLen, o), c16Case{Source: "biglist"})
+			}
+			var mb []byte
+			real.Try(func() {
+				mb = ast.NewDataMessage("", 1, 1, 0, "H->E", l).SetSessionIDAndSystemBytes(1, []byte{0, 0, 0, 1}).ToBytes()
+			})
+			if len(mb) != 14+wantLen {
+				c.Violation("C16/message-encodable-iff-complete/list-longer-than-any-item", fmt.Sprintf("%s: message ToBytes() has %d bytes, want %d", name, len(mb), 14+wantLen), c16Case{Source: "biglist"})
+			}
+		}
+	}
 	// one list object used as the first element of two parents (user-built sharing): each parent keeps its own names
 	for nsub := 1; nsub <= 17; nsub++ {
 		var subArgs []interface{}
@@ -428,7 +454,7 @@ func runC16(c *ctx) {
 			}
 		}
 	}
-	c.Required = []string{"item-just-beyond-the-limit", "shared-sub-list", "same-ellipsis-name-twice", "wide-item-with-variables", "n-variables-in-one-node", "rename-refused", "rename-accepted", "object/direct", "object/expanded", "object/message", "object/derived", "object/parsed", "variable-free", "with-variables"}
+	c.Required = []string{"item-just-beyond-the-limit", "shared-sub-list", "same-ellipsis-name-twice", "wide-item-with-variables", "list-longer-than-any-item", "n-variables-in-one-node", "rename-refused", "rename-accepted", "object/direct", "object/expanded", "object/message", "object/derived", "object/parsed", "variable-free", "with-variables"}
 }
 
 func replayC16(c *ctx, raw json.RawMessage) {
